@@ -15,9 +15,9 @@
 (*   TwinChild        childMatch without the cut at "**"                   *)
 (*   TwinList         negations applied without regard to order            *)
 (* The conformance of the real code is NOT decided here but by             *)
-(* Fn_Glob!RecOK on records of the real functions (props/C28.py).          *)
+(* Fn_GlobRec!RecOK on records of the real functions (props/C28.py).          *)
 (***************************************************************************)
-EXTENDS Fn_Glob, Integers, VerifParams   \* VerifParams: MaxParts, MaxDepth, ListDepth, ListTriples (written by props/C28.py)
+EXTENDS Fn_GlobRec, Integers, VerifParams   \* VerifParams: MaxParts, MaxDepth, ListDepth, ListTriples (written by props/C28.py)
 
 MinOf(S) == CHOOSE x \in S : \A y \in S : x <= y
 Strs(p)     == (IF p.abs THEN <<"/">> ELSE <<>>) \o p.comps
